@@ -66,7 +66,7 @@ fn batch_rows(b: &RecordBatch) -> Vec<String> {
         .collect()
 }
 
-fn seg_files(dir: &Path) -> BTreeMap<String, u64> {
+pub fn seg_files(dir: &Path) -> BTreeMap<String, u64> {
     let mut m = BTreeMap::new();
     if let Ok(rd) = std::fs::read_dir(dir) {
         for e in rd.flatten() {
